@@ -379,6 +379,10 @@ class Taint:
                     out |= {C, L}
                 if name in LEN_FROM_ARG and len(abits) >= 2 and any(C in x for x in abits[1:]):
                     out.add(L)
+                # a sub-slice cut at a number out of the input (`&window[..header_len]`): how long it is was decided by content
+                if name in ("index", "index_mut", "get", "get_mut") and len(abits) >= 2 and C in abits[1] \
+                        and "Range" in ((t.get("argtys") or ["", ""])[1] if len(t.get("argtys") or []) > 1 else ""):
+                    out.add(L)
             # &mut receiver mutated by the other arguments (push/extend/copy_from_slice/read/...)
             if args:
                 ty0 = (t.get("argtys") or [""])[0]
